@@ -131,6 +131,16 @@ func (g *gen) settings(n *NodeSpec, budget, wait int) {
 	if wait != 0 || g.chance(0.2) {
 		ss = append(ss, Setting{Param: "wait", Form: form(), Val: wait})
 	}
+	if n.Kind == "func" && g.chance(0.12) {
+		// batch parameters on a node that is not a batch node: unrelated, they
+		// must not change its lifecycle
+		if g.chance(0.7) {
+			ss = append(ss, Setting{Param: "conc", Form: form(), Val: 1 + g.r.IntN(4)})
+		}
+		if len(ss) == 0 || g.chance(0.5) {
+			ss = append(ss, Setting{Param: "stop", Form: form(), Val: g.r.IntN(2)})
+		}
+	}
 	n.Settings = orderSettings(ss)
 }
 
@@ -648,6 +658,17 @@ func genC02base(prop, tier string, r *rand.Rand) *Scn {
 }
 
 func genC03(prop, tier string, r *rand.Rand) *Scn {
+	sc := genC03base(prop, tier, r)
+	if r.IntN(6) == 0 {
+		// the path the table determines is also the path of a run whose context
+		// ends on the way: it stops there, or - cancelled inside its last node -
+		// still ends successfully
+		withCancellation(sc, r)
+	}
+	return sc
+}
+
+func genC03base(prop, tier string, r *rand.Rand) *Scn {
 	return bounded(func() *Scn {
 		g := newGen(prop, tier, r)
 		faultfree(g, r)
@@ -909,8 +930,19 @@ func genC08(prop, tier string, r *rand.Rand) *Scn {
 	if stop {
 		g.failP = 0
 	}
-	n := g.rootBatch(ni, 1+r.IntN(2), 0, conc, stop, nil)
+	budget, wait := 1+r.IntN(2), 0
+	if !stop && r.IntN(4) == 0 {
+		// an item waiting for its next attempt still occupies its worker: the
+		// limit holds while items fail, wait and retry next to long-running ones
+		budget, wait = 2+r.IntN(2), pick(r, []int{10, 20, 30})
+		g.failP = 0.3
+	}
+	n := g.rootBatch(ni, budget, wait, conc, stop, nil)
 	g.timing(n)
+	if wait > 0 {
+		// (the usability workloads below need every first attempt to park: keep this one to the upper bound)
+		return g.sc
+	}
 	switch r.IntN(4) {
 	case 0:
 		// usability: every execution parks until min(c, n) executions have started
@@ -1114,8 +1146,18 @@ func genC05(prop, tier string, r *rand.Rand) *Scn {
 		starts := startEvents(mr)
 		sc.Ctx.Kind = "cancel"
 		for try := 0; try < 8 && len(starts) > 0; try++ {
-			if o := sc.outcomeAt(pick(r, starts)); o != nil {
+			e := pick(r, starts)
+			if o := sc.outcomeAt(e); o != nil {
 				o.Cancel = true
+				if r.IntN(3) == 0 {
+					// the context also carries a deadline that would fall shortly after
+					// the cancelling callback (inside a following retry wait, say): it is
+					// cancelled, not timed out, and that is what the run reports
+					sc.Ctx.DeadlineUs = e.T/1000 + int64(o.SleepMs)*1000 + 1 + r.Int64N(45000)
+					if sc.Ctx.DeadlineUs%10000 == 0 {
+						sc.Ctx.DeadlineUs += 1 + r.Int64N(9999)
+					}
+				}
 				break
 			}
 		}
